@@ -15,7 +15,8 @@ from .. import tlc, mbt
 from .. import c02_util as U
 from ..common import Verdict, use_repo, SEED
 
-BASE = dict(MaxObjs=3, MaxKids=2, ValScalars=['s_word'], KeyScalars=['s_word'], CellTypes=['list', 'dict'], DateRanks=[1],
+ALLTZ = ['utc', 'p00', 'pH0', 'p0M', 'pHM', 'nH0', 'n0M', 'nHM']
+BASE = dict(MaxObjs=3, MaxKids=2, ValScalars=['s_word'], KeyScalars=['s_word'], CellTypes=['list', 'dict'], DateRanks=[1], TzShapes=['utc'],
             SortOpts=[False], FlowOpts=['N'], StyleOpts=[''], D7Fixed=False)
 ALLVALS = ['none', 'true', 'false', 'int_neg', 'int_pos', 'int_big', 'fninf', 'fnegzero', 'float_frac', 'float_pos', 'fexp', 'finf',
            'fnan', 's_empty', 's_float', 's_int', 's_ts', 's_merge', 's_value', 's_bool', 's_word', 's_null', 's_multi', 'b_lo', 'b_hi']
@@ -31,11 +32,14 @@ CONFIGS = {
     # date / datetime objects as (shared) keys and values
     'dates3': dict(BASE, MaxObjs=3, KeyScalars=['int_pos'], CellTypes=['dict', 'set', 'date', 'dtn'], DateRanks=[1, 2],
                    SortOpts=[True, False]),
+    'dates2': dict(BASE, MaxObjs=2, KeyScalars=['int_pos'], CellTypes=['dict', 'set', 'date', 'dtn'], DateRanks=[1, 2],
+                   SortOpts=[True, False]),
     # every scalar class as value and as key, every value-level option
     'scalars': dict(BASE, MaxObjs=1, MaxKids=1, ValScalars=ALLVALS, KeyScalars=ALLKEYS, CellTypes=['list', 'dict', 'set'],
                     SortOpts=[True, False], FlowOpts=['T', 'F', 'N'], StyleOpts=['', 'q']),
     # aware datetimes, with and without seconds in the UTC offset (D7)
-    'tz2': dict(BASE, MaxObjs=2, KeyScalars=['int_pos'], CellTypes=['list', 'dict', 'dta', 'dts'], SortOpts=[True, False]),
+    # (every UTC offset shape: timezone.utc, +00:00, sign x {zero, non-zero} hours x {zero, non-zero} minutes)
+    'tz2': dict(BASE, MaxObjs=2, KeyScalars=['int_pos'], CellTypes=['list', 'dict', 'dta', 'dts'], TzShapes=ALLTZ, SortOpts=[True, False]),
     # small mixed values (C16 quick)
     'mixed2': dict(BASE, MaxObjs=2, KeyScalars=['s_word', 'int_pos'], CellTypes=['list', 'dict', 'set', 'date'], SortOpts=[True, False]),
     # thorough only
@@ -48,9 +52,9 @@ CONFIGS = {
     'scalars2': dict(BASE, MaxObjs=1, MaxKids=2, ValScalars=ALLVALS, KeyScalars=['s_word', 'int_pos', 'b_lo'], CellTypes=['list', 'dict'],
                      SortOpts=[True], FlowOpts=['N'], StyleOpts=['', 'q']),
     'tz3': dict(BASE, MaxObjs=3, KeyScalars=['int_pos'], CellTypes=['list', 'dict', 'set', 'dta', 'dts'], DateRanks=[1, 2],
-                SortOpts=[True, False]),
+                TzShapes=['utc', 'n0M', 'pHM'], SortOpts=[True, False]),
 }
-TIERS = {'quick': ['graph4', 'mixed3', 'order1', 'dates3', 'scalars', 'tz2'],
+TIERS = {'quick': ['graph4', 'mixed3', 'order1', 'dates2', 'scalars', 'tz2'],
          'thorough': ['graph4', 'lists5', 'mixed4', 'order2', 'dates3', 'scalars', 'scalars2', 'opts2', 'tz3']}
 EXTRA_OPTS = {'quick': 0.25, 'thorough': 1}          # points of the full option product per state, besides the state's own options
 RANDOM_VALUES = {'quick': 2500, 'thorough': 60000}
@@ -249,6 +253,18 @@ def random_work(args):
     return res
 
 
+def grid_work(args):
+    a, b = args
+    yaml = use_repo()
+    res = {'obs': 0, 'uniq': {}, 'suspect': []}
+    for i in range(a, b):
+        for recipe, value, opts in U.grid_cases(i):
+            in_proj = U.project(value)
+            for dumper in U.DUMPERS:
+                res['obs'] += run_case(yaml, value, in_proj, opts, dumper, res, recipe)
+    return res
+
+
 def report(v, yaml, tr, rec, why):
     rec = json.loads(rec) if isinstance(rec, str) else rec
     value, opts = U.rebuild(rec)
@@ -371,8 +387,17 @@ def main(tier, replay=None):
     jobs = [(SEED, a, min(chunk, nrand - a)) for a in range(0, nrand, chunk)]
     with mp.Pool(16) as pool:
         rout = pool.map(random_work, jobs, chunksize=1)
+    # code -> spec: the systematic string grid (every grid string x context x style x option set x 4 pairings)
+    step = max(1, len(U.GRID) // 64)
+    with mp.Pool(16) as pool:
+        gout = pool.map(grid_work, [(a, min(a + step, len(U.GRID))) for a in range(0, len(U.GRID), step)], chunksize=1)
+    gobs = sum(o['obs'] for o in gout)
     robs = sum(o['obs'] for o in rout)
     uniq = {}
+    for o in gout:
+        for k, rec in o['uniq'].items():
+            uniq.setdefault(k, rec)
+        traces += [(t, rec, True) for t, rec in o['suspect']]
     for o in rout:
         samples += o['samples'][:1]
         for k, rec in o['uniq'].items():
@@ -386,7 +411,7 @@ def main(tier, replay=None):
     rejected += rj
     njudged += len(traces)
     phases['tlc_trace_judgement_s'] = round(time.time() - t0, 1)
-    v.cov = {'phases': phases, 'states': states + tstates, 'transitions': trans, 'model_states': states, 'traces_validated_against_impl': obs + robs,
+    v.cov = {'phases': phases, 'states': states + tstates, 'transitions': trans, 'model_states': states, 'traces_validated_against_impl': obs + robs + gobs, 'observations_from_string_grid': gobs, 'grid_strings': len(U.GRID),
              'observations_from_model_states': obs, 'observations_from_random_values': robs, 'random_values': nrand,
              'max_random_value_size': max(o['nodes'] for o in rout), 'distinct_observations_judged_by_tlc': njudged,
              'rejected_by_tlc': rejected, 'exhaustive': True, 'distinct_nontrivial': nontrivial + sum(o['nontrivial'] for o in rout),
